@@ -145,6 +145,15 @@ def _invented(sname, iname, late):
     m.i = C({})(b=sig)
     m.j = C({})(a=m.i.a, b=h.NoConn())
     m.k = C({})(a=m.b.x, b=h.NoConn(name="xy"))
+    # one bundle instance with two members whose flattened names coincide (a scalar `x_y` next to sub-bundle `x` with member `y`)
+    Inner = h.Bundle(name="Inner")
+    Inner.add(h.Signal(name="y", width=2))
+    Outer = h.Bundle(name="Outer")
+    Outer.add(h.Signal(name="x_y"))
+    Outer.add(h.BundleInstance(name="x", of=Inner))
+    W = h.ExternalModule(name="Wide", port_list=[h.Port(name="a", width=2), h.Port(name="b")], paramtype=dict)
+    m.o = h.BundleInstance(of=Outer)
+    m.wq = W({})(a=m.o.x.y, b=m.o.x_y)
     if late:
         m.add(sig), m.add(mine)
     mine.connect("a", sig)
